@@ -36,8 +36,21 @@ def _one(pattern, text, what, flags=re.S):
     return ms[0]
 
 
-def _fn_body(src, name):
-    m = _one(r"\bfn\s+" + name + r"\b", src, "fn " + name)
+def _fn_body(src, name, containing=None):
+    ms = list(re.finditer(r"\bfn\s+" + name + r"\b", src))
+    if containing is not None:
+        # several functions of that name: the one whose body mentions `containing`
+        cands = []
+        for m0 in ms:
+            b, l = _fn_body(src[m0.start():], name)
+            if containing in b:
+                cands.append((b, l + src[:m0.start()].count("\n")))
+        if len(cands) != 1:
+            raise ValueError("C15 generate: expected exactly one fn %s containing `%s`, found %d" % (name, containing, len(cands)))
+        return cands[0]
+    if len(ms) != 1:
+        raise ValueError("C15 generate: expected exactly one match for fn %s, found %d" % (name, len(ms)))
+    m = ms[0]
     i = src.index("{", m.end())
     depth = 0
     for j in range(i, len(src)):
@@ -86,6 +99,39 @@ def generate(ctx):
     m = _one(r"if\s+msg_len\s*<\s*(\d+)\s*\{", body, "`if msg_len < N {` in do_read_event")
     minlen = int(m.group(1))
     meta.append({"name": "MIN_MSG_LEN", "file": PH, "line_start": line + body[:m.start()].count("\n"), "value": minlen})
+    # position of the Init-first gate: in do_handle_message_holding_peer_lock the
+    # `their_features.is_none()` refusal must come right after the Init branch and before anything
+    # that can reach a handler or the batch state (the model's gate_msg has exactly this order)
+    hbody, hline = _fn_body(ph, "do_handle_message_holding_peer_lock")
+    gates = [m.start() for m in re.finditer(r"their_features\s*\.\s*is_none\(\)", hbody)]
+    if len(gates) != 1:
+        raise ValueError("C15 generate: expected exactly one `their_features.is_none()` test in do_handle_message_holding_peer_lock, found %d" % len(gates))
+    gate = gates[0]
+    if "return Err(PeerHandleError" not in hbody[gate:gate + 300]:
+        raise ValueError("C15 generate: the `their_features.is_none()` test no longer returns Err(PeerHandleError) immediately")
+    m_init = re.search(r"if\s+let\s+Message::Init\(", hbody)
+    if not m_init or m_init.start() > gate:
+        raise ValueError("C15 generate: the Init branch no longer precedes the `their_features.is_none()` gate")
+    later = {}
+    for name, pat in (("message_batch", r"message_batch"), ("Message::StartBatch", r"Message::StartBatch"), ("Message::CommitmentSigned", r"Message::CommitmentSigned"),
+                      ("Message::GossipTimestampFilter", r"Message::GossipTimestampFilter"), ("LogicalMessage::", r"LogicalMessage::"),
+                      ("a handler call .handle_*(", r"\.handle_[a-z_0-9]+\(")):
+        mm = re.search(pat, hbody)
+        if mm:
+            later[name] = mm.start()
+    early = sorted((o, n) for n, o in later.items() if o < gate)
+    if early:
+        raise ValueError("C15 generate: in do_handle_message_holding_peer_lock `%s` now occurs before the `their_features.is_none()` gate (line %d): "
+                         "a message can reach it before the peer's Init" % (early[0][1], hline + hbody[:early[0][0]].count("\n")))
+    for need in ("message_batch", "LogicalMessage::"):
+        if need not in later:
+            raise ValueError("C15 generate: anchor `%s` not found in do_handle_message_holding_peer_lock (the function was restructured)" % need)
+    mbody, mline = _fn_body(ph, "handle_message", containing="do_handle_message_holding_peer_lock(")
+    lock_call = mbody.find("do_handle_message_holding_peer_lock(")
+    others = [mbody.find(x) for x in ("handle_commitment_signed_batch(", "do_handle_message_without_peer_lock(")]
+    if lock_call < 0 or any(o < 0 or o < lock_call for o in others):
+        raise ValueError("C15 generate: handle_message no longer runs do_handle_message_holding_peer_lock before dispatching to handlers")
+    meta.append({"name": "init-gate position (ordered anchors)", "file": PH, "line_start": hline + hbody[:gate].count("\n")})
     ck, l1 = _arr32(enc, "NOISE_CK")
     h, l2 = _arr32(enc, "NOISE_H")
     meta.append({"name": "NOISE_CK", "file": ENC, "line_start": l1})
@@ -558,14 +604,112 @@ def corrupt_level(ctx, model_ok):
 
 
 # ----------------------------------------------------------------- PeerManager level
+# ---- well-formed frames of every message type wire::read knows (layouts as in lightning/src/ln/msgs.rs);
+# the harness reports for each whether the library decodes it, so a wrong layout shows up in coverage
+P1 = "028d7500dd4c12685d1f568b4c2b5048e8534b873319f3a8daa612b469132ec7f7"
+P2 = "034f355bdcb7cc0af728ef3cceb9615d90684bb5b2ca5f859ab0f0b704075871aa"
+SIG = "01" * 64
+CH = "c1" * 32
+CH2 = "c2" * 32
+H32 = "ab" * 32
+CHAIN = "43497fd7f826957108f4a30fd9cec3aeba79972084e90ead01ea330900000000"
+
+
+def u(n, v):
+    return "%0*x" % (2 * n, v)
+
+
+def start_batch(size, with_type=True, chan=CH):
+    return "007f" + chan + u(2, size) + ("01020084" if with_type else "")
+
+
+def commitment_signed(chan=CH, nh=0, batch_tlv=False):
+    return "0084" + chan + SIG + u(2, nh) + SIG * nh + (("0120" + H32) if batch_tlv else "")
+
+
+def all_messages():
+    onion_pkt = "00" + P1 + "00" * 1300 + "11" * 32
+    om_pkt = "00" + P1 + "22" * 70 + "33" * 32
+    return [
+        ("warning", "0001" + CH + "0003616263"),
+        ("stfu", "0002" + CH + "01"),
+        ("peer_storage", "0007" + "0004" + "deadbeef"),
+        ("peer_storage_retrieval", "0009" + "0004" + "deadbeef"),
+        ("error", "0011" + CH + "0003616263"),
+        ("ping", "0012" + "0004" + "0002" + "0000"),
+        ("pong", "0013" + "0002" + "0000"),
+        ("open_channel", "0020" + CHAIN + CH + u(8, 100000) + u(8, 0) + u(8, 546) + u(8, 10 ** 8) + u(8, 1000) + u(8, 1) + u(4, 253) + u(2, 144) + u(2, 30) + P1 + P2 + P1 + P2 + P1 + P2 + "00"),
+        ("accept_channel", "0021" + CH + u(8, 546) + u(8, 10 ** 8) + u(8, 1000) + u(8, 1) + u(4, 3) + u(2, 144) + u(2, 30) + P1 + P2 + P1 + P2 + P1 + P2),
+        ("funding_created", "0022" + CH + H32 + u(2, 1) + SIG),
+        ("funding_signed", "0023" + CH + SIG),
+        ("channel_ready", "0024" + CH + P1),
+        ("shutdown", "0026" + CH + "0002" + "5120"),
+        ("closing_signed", "0027" + CH + u(8, 500) + SIG),
+        ("open_channel_v2", "0040" + CHAIN + CH + u(4, 253) + u(4, 253) + u(8, 100000) + u(8, 546) + u(8, 10 ** 8) + u(8, 1) + u(2, 144) + u(2, 30) + u(4, 0) + P1 + P2 + P1 + P2 + P1 + P2 + P1 + "00"),
+        ("accept_channel_v2", "0041" + CH + u(8, 100000) + u(8, 546) + u(8, 10 ** 8) + u(8, 1) + u(4, 3) + u(2, 144) + u(2, 30) + P1 + P2 + P1 + P2 + P1 + P2 + P1),
+        ("tx_add_input", "0042" + CH + u(8, 2) + "0000" + u(4, 0) + u(4, 0xfffffffd) + "0020" + H32),
+        ("tx_add_output", "0043" + CH + u(8, 2) + u(8, 1000) + "0002" + "5120"),
+        ("tx_remove_input", "0044" + CH + u(8, 2)),
+        ("tx_remove_output", "0045" + CH + u(8, 2)),
+        ("tx_complete", "0046" + CH),
+        ("tx_signatures", "0047" + CH + H32 + "0000"),
+        ("tx_init_rbf", "0048" + CH + u(4, 0) + u(4, 253)),
+        ("tx_ack_rbf", "0049" + CH),
+        ("tx_abort", "004a" + CH + "0002" + "6869"),
+        ("splice_locked", "004d" + CH + H32),
+        ("splice_init", "0050" + CH + u(8, 1000) + u(4, 253) + u(4, 0) + P1),
+        ("splice_ack", "0051" + CH + u(8, 1000) + P1),
+        ("start_batch", start_batch(2)),
+        ("start_batch_no_type", start_batch(2, False)),
+        ("update_add_htlc", "0080" + CH + u(8, 0) + u(8, 1000) + H32 + u(4, 500000) + onion_pkt),
+        ("update_fulfill_htlc", "0082" + CH + u(8, 0) + H32),
+        ("update_fail_htlc", "0083" + CH + u(8, 0) + "0002" + "0000"),
+        ("commitment_signed", commitment_signed()),
+        ("commitment_signed_htlcs", commitment_signed(nh=2)),
+        ("commitment_signed_batch_tlv", commitment_signed(batch_tlv=True)),
+        ("revoke_and_ack", "0085" + CH + H32 + P1),
+        ("update_fee", "0086" + CH + u(4, 1000)),
+        ("update_fail_malformed_htlc", "0087" + CH + u(8, 0) + H32 + u(2, 0x8002)),
+        ("channel_reestablish", "0088" + CH + u(8, 1) + u(8, 0) + "00" * 32 + P1),
+        ("channel_announcement", "0100" + SIG * 4 + "0000" + CHAIN + u(8, 42) + P1 + P2 + P1 + P2),
+        ("node_announcement", "0101" + SIG + "0000" + u(4, 1) + P1 + "010203" + "61" * 32 + "0000"),
+        ("channel_update", "0102" + SIG + CHAIN + u(8, 42) + u(4, 1) + "01" + "00" + u(2, 40) + u(8, 1) + u(4, 1000) + u(4, 1) + u(8, 10 ** 8)),
+        ("announcement_signatures", "0103" + CH + u(8, 42) + SIG + SIG),
+        ("query_short_channel_ids", "0105" + CHAIN + "0009" + "00" + u(8, 42)),
+        ("reply_short_channel_ids_end", "0106" + CHAIN + "01"),
+        ("query_channel_range", "0107" + CHAIN + u(4, 0) + u(4, 100)),
+        ("reply_channel_range", "0108" + CHAIN + u(4, 0) + u(4, 100) + "01" + "0009" + "00" + u(8, 42)),
+        ("gossip_timestamp_filter", "0109" + CHAIN + u(4, 0) + u(4, 0xffffffff)),
+        ("onion_message", "0201" + P2 + u(2, len(om_pkt) // 2) + om_pkt),
+        ("custom_known_odd", "8001" + "aabbcc"),
+        ("custom_known_even", "8002" + "aabbcc"),
+        ("unknown_odd", "ea61" + "0102"),
+        ("unknown_even", "ea60" + "0102"),
+    ]
+
+
+CHAN_TYPES = {2, 7, 9, 17, 32, 33, 34, 35, 36, 38, 39, 64, 65, 66, 67, 68, 69, 70, 71, 72, 73, 74, 77, 80, 81, 128, 130, 131, 132, 133, 134, 135, 136, 259}
+ROUTE_NAMES = {256: "channel_announcement", 257: "node_announcement", 258: "channel_update", 261: "query_short_channel_ids",
+               262: "reply_short_channel_ids_end", 263: "query_channel_range", 264: "reply_channel_range", 513: "onion_message"}
+
+
+def delivered_items(m):
+    """what the recording handlers log when message `m` is dispatched"""
+    t = int(m[:4], 16) if len(m) >= 4 else -1
+    out = []
+    if t in CHAN_TYPES or t == 258 or 32768 <= t < 60000:
+        out.append("M" + m)
+    if t in ROUTE_NAMES:
+        out.append("H:" + ROUTE_NAMES[t])
+    return out
+
+
 INIT = "001000000000"
-KNOWN_CHAN = {36, 38, 17}
 NO_MODEL = {"max"}   # 130 kB literals overflow coqc's stack: implementation-side judge only
 
 
 def observable(m):
-    t = int(m[:4], 16) if len(m) >= 4 else -1
-    return (32768 <= t < 60000) or t in KNOWN_CHAN
+    return any(it.startswith("M") for it in delivered_items(m))
 
 
 def classify(m):
@@ -660,6 +804,29 @@ def raw_scenarios(ctx):
     sc.append(("warning", "in", [INIT, "0001" + "00" * 32 + "0003616263", custom(2)], {}))
     sc.append(("chan-msgs", "in", [INIT, "0026" + "11" * 32 + "0002aabb", custom(2)], {}))
     sc.append(("big", "in", [INIT, custom(5000)], {"frags": [116, 40, 1000, 1, 1]}))
+    # EVERY message type the library decodes, as the first transport message instead of Init:
+    # in the same read_event as the end of the handshake (our Init only queued) and in a later one
+    # (our Init already on the wire), against an inbound and an outbound PeerManager
+    for name, m in all_messages():
+        sc.append(("first-" + name, "in", [m, custom(2)], {"frags": [116]}))
+        sc.append(("first!" + name, "in", [m, custom(2)], {}))
+        sc.append(("first!" + name, "out", [m, custom(2)], {"frags": [50]}))
+        sc.append(("first!" + name, "out", [m, custom(2)], {}))
+    for size, k, tlv in ((2, 1, False), (2, 2, False), (3, 3, True), (2, 3, False)):
+        pre = [start_batch(size)] + [commitment_signed(batch_tlv=tlv)] * k
+        sc.append(("first-batch-%d-%d" % (size, k), "in", pre + [custom(2)], {"frags": [116]}))
+        sc.append(("first!batch-%d-%d" % (size, k), "out", pre + [custom(2)], {}))
+    # ... and right after an accepted Init: the dispatch / batch path of the model against the code
+    for name, m in all_messages():
+        sc.append(("post-" + name, "in", [INIT, m, custom(2)], {}))
+    cs, cs2 = commitment_signed(), commitment_signed(chan=CH2)
+    for nm, fr in (("batch-2", [start_batch(2), cs, cs, custom(3)]), ("batch-3-tlv", [start_batch(3), commitment_signed(batch_tlv=True)] * 1 + [cs, cs, custom(3)]),
+                   ("batch-interrupted", [start_batch(2), cs, custom(3)]), ("batch-wrong-channel", [start_batch(2), cs2, cs]),
+                   ("batch-size-1", [start_batch(1), cs, custom(3)]), ("batch-size-0", [start_batch(0), custom(3)]),
+                   ("batch-size-20", [start_batch(20)] + [cs] * 20 + [custom(3)]), ("batch-size-21", [start_batch(21), cs]),
+                   ("batch-no-type", [start_batch(2, False), cs, custom(3)]), ("batch-nested", [start_batch(2), start_batch(2)]),
+                   ("batch-then-filter", [start_batch(2), "0109" + CHAIN + "0000000000000001"]), ("batch-twice", [start_batch(2), cs, cs, start_batch(2), cs, cs, custom(3)])):
+        sc.append((nm, "in", [INIT] + fr, {}))
     if not quick:
         sc.append(("max", "in", [INIT, custom(65533), custom(2)], {"frags": [116, 40, 30000]}))
     return sc
@@ -727,6 +894,7 @@ def pm_level(ctx, model_ok):
         return None, None, cov
     hist = {}
     exprs, emeta = [], []
+    first_seen, undecodable = set(), set()
     for (name, role, frames, opts), line, o in zip(sc, rl, out):
         rep = "echo '%s' | %s" % (line[:600], ctx.bin_path("h_peer"))
         if o == "PANIC":
@@ -735,7 +903,7 @@ def pm_level(ctx, model_ok):
         j = json.loads(o)
         res = [x["res"] for x in j["obs"]]
         items = [it for x in j["obs"] for it in x["items"]]
-        key = name + ":" + ("panic" if j["panic"] else "err" if "err" in res else "ok")
+        key = re.sub(r"^(first.|post-).*", r"\1*", name) + ":" + ("panic" if j["panic"] else "err" if "err" in res else "ok")
         hist[key] = hist.get(key, 0) + 1
         # --- judge on the implementation
         if j["panic"]:
@@ -746,8 +914,21 @@ def pm_level(ctx, model_ok):
         # expected deliveries: the observable plaintexts, in order, up to the first frame that is
         # corrupted / unacceptable
         honest_stream = "stream" not in opts and not any(k in opts for k in ("flips", "replay", "swap", "cut", "insert"))
-        exp_all = [m for m in frames if observable(m)]
-        if msgs_seen != exp_all[:len(msgs_seen)]:
+        exp_all = [m for m, d in zip(frames, j["dec"]) if observable(m) and d.startswith("ok")]
+        calls = [it for it in items if it not in ("X",)]
+        if name.startswith("first"):
+            # nothing may reach ANY handler method, peer_connected must not be called, and (when the
+            # frame decodes, i.e. gets as far as the gate) the connection must be dropped
+            if calls:
+                fails.append({"kind": "before the peer's Init a handler was called (%s): %s" % (name[6:], ", ".join(c[:40] for c in calls[:3])), "input": line[:600], "replay_cmd": rep})
+            if j["dec"] and j["dec"][0].startswith("ok") and "err" not in res and "panic" not in res:
+                fails.append({"kind": "a %s sent instead of Init did not get the peer disconnected" % name[6:], "input": line[:600], "replay_cmd": rep})
+            first_seen.add(name[6:])
+            if j["dec"] and not j["dec"][0].startswith("ok"):
+                undecodable.add(name[6:])
+        if name.startswith("batch") or "batch" in name:
+            pass    # batch deliveries are one handler call for several frames: compared through the model
+        elif msgs_seen != exp_all[:len(msgs_seen)]:
             fails.append({"kind": "a handler received something that was not sent, twice, or out of order (%s)" % name, "input": line[:600], "delivered": [m[:60] for m in msgs_seen[:5]], "replay_cmd": rep})
         if "flips" in opts:
             off = opts["flips"][0][0]
@@ -776,7 +957,7 @@ def pm_level(ctx, model_ok):
         if name.startswith("honest") and (("err" in res) or msgs_seen != exp_all):
             fails.append({"kind": "an honest stream was not delivered (%s)" % name, "input": line[:600], "delivered": len(msgs_seen), "expected": len(exp_all), "replay_cmd": rep})
         # --- model prediction for the same bytes and the same fragmentation
-        if model_ok and not j["panic"] and name not in NO_MODEL:
+        if model_ok and not j["panic"] and name not in NO_MODEL and not name.startswith("first!"):
             cv = curve_expr(j["pubs"], j["dh"], j["valid"])
             dtbl, ib, hb = [], [], []
             for m in frames:
@@ -795,6 +976,10 @@ def pm_level(ctx, model_ok):
                 exprs.append("rd_out %s (%s) (%s) (%s) %s %s" % (cv, B(j["pm_secret"]), B(j["pm_eph"]), B(j["h_static_pub"]), tabs, frs))
             emeta.append((name, role, line, j))
     cov["raw_scenarios"] = len(sc)
+    cov["first_message_types_tried"] = len(first_seen)
+    cov["first_message_frames_not_decodable"] = sorted(undecodable)
+    if len(first_seen) - len(undecodable) < 45:
+        dis.append({"topic": "first-message sweep: too few of the generated frames decode any more", "undecodable": sorted(undecodable)})
     cov["raw_result_histogram"] = hist
     if model_ok and exprs:
         t0 = time.time()
@@ -814,6 +999,7 @@ def pm_level(ctx, model_ok):
                 dis.append({"topic": "reader: number of read_event calls", "input": line[:400], "impl": len(j["obs"]), "model": len(calls)})
                 continue
             dead = False
+            batch = None
             for ci, ((evs, status), ob) in enumerate(zip(calls, j["obs"])):
                 n_calls += 1
                 evs = strs(evs)
@@ -821,11 +1007,17 @@ def pm_level(ctx, model_ok):
                 for e in evs:
                     if e.startswith("F"):
                         cur = e[1:]
+                        if cur[:4] == "007f" and cur[68:72] and cur[72:] == "01020084" and 2 <= int(cur[68:72], 16) <= 20 and batch is None:
+                            batch = int(cur[68:72], 16)     # only relevant if the model goes on to deliver
                     elif e == "I":
                         want_items.append("C")
-                    elif e == "D" and cur is not None and observable(cur):
-                        want_items.append("M" + cur)
-                got_items = [it for it in ob["items"] if it != "X"]
+                    elif e == "D" and cur is not None:
+                        if cur[:4] == "0084" and batch is not None:
+                            want_items.append("Mbatch%d" % batch)   # handle_commitment_signed_batch
+                            batch = None
+                        else:
+                            want_items += delivered_items(cur)
+                got_items = [it for it in ob["items"] if it not in ("X", "c")]
                 want_res = "dead" if dead else ("ok" if status == "alive" else "err" if status == "disconnected" else status)
                 if status != "alive":
                     dead = True
